@@ -132,6 +132,11 @@ def r06_2(chk):
     chk.inst("R06.2", f"{f.ref}::new-state", ok, "y_{n+1} = y_n + h·(b·ks), dated t_n + h" if ok else "changed", where)
     ok = f"error={step}.total_seconds()*(bb-self.butcher['b_star'])@ks" in b and "p_error=linalg.norm(error[:3])" in b
     chk.inst("R06.2", f"{f.ref}::error-estimate", ok, "error = h·((b − b*)·ks), position part" if ok else "changed", where)
+    # the accepted quantity is a norm: non-negative whatever the sign of the step (backward propagation uses negative steps)
+    pe = [x for x in it.body if isinstance(x, ast.Assign) and unparse(x.targets[0]) == "p_error"]
+    ok = len(pe) == 1 and isinstance(pe[0].value, ast.Call) and unparse(pe[0].value.func).split(".")[-1] == "norm"
+    chk.inst("R06.2", f"{f.ref}::error-is-a-norm", ok, "p_error = ‖·‖ ≥ 0 for forward and backward steps alike" if ok else
+             f"p_error = {unparse(pe[0].value) if pe else '?'} is not a norm at top level: with a negative step (backward propagation) it is negative and every step is accepted", loc(f, pe[0]) if pe else where)
     # acceptance polarity (H1)
     acc = [s for s in it.body if isinstance(s, ast.If) and "p_error" in unparse(s.test)]
     ok = False
@@ -174,7 +179,7 @@ def r06_2(chk):
         ok = len(b) == 3 and b[0].startswith("real_step,orb=self._make_step(orb,") and b[1] == "ephem.append(orb)" and b[2] == "date+=real_step"
         n_ok += ok
         chk.inst("R06.2", f"{g.ref}::march::{unparse(w.test)}", ok, "date advances by the step actually taken" if ok else f"{b}", loc(g, w))
-    chk.floor("R06.2", 14)
+    chk.floor("R06.2", 15)
 
 
 def r06_3(chk):
